@@ -387,7 +387,7 @@ def run(rep, pdb, tier):
     rep.floor("storage-map/", 3)
     rep.floor("convert/", 8)
     rep.floor("stencil/", 8)
-    rep.floor("bounds/", 30)
+    rep.floor("bounds/", 24)
     rep.floor("invariant/", 5)
     rep.floor("refuse/", 3)
     rep.floor("operators/", 10)
